@@ -903,6 +903,7 @@ class Engine:
                     for x in ast.walk(t):
                         if isinstance(x, ast.Name) and isinstance(x.ctx, ast.Store): names.add(x.id)
                     if isinstance(t, ast.Name): names.add(t.id)
+                    if isinstance(t, ast.Subscript) and isinstance(t.value, ast.Name): names.add(t.value.id)          # d[k] = v changes the value held by the local d
             if isinstance(n, ast.For):
                 for x in ast.walk(n.target):
                     if isinstance(x, ast.Name): names.add(x.id)
